@@ -30,6 +30,15 @@ claimed = {
    note=(TB + "Assumed: register files are indexed within the per-wavefront allocation (offset preconditions taken from the dispatcher, proved under C09 when claimed); "
          "the timing register file component is modelled by the cell arrays its Read/Write contract states. One genuine defect repaired (VCCHI write mask)."),
    design="5 (C07)", technique="deductive verification: WP-style VC generation over go/ssa + SMT (two implementations against one abstract view)"),
+ "C13": dict(
+   text=("The header and descriptor parsers (isV2V3Header, parseV2V3Header, parseV5KernelDescriptor, newKernelCodeObjectFromEntireTextSection) are verified against the "
+         "amd_kernel_code_t and AMDHSA kernel-descriptor layouts for all byte strings: every loaded field equals the little-endian field at its offset, the 256-byte header is "
+         "stripped exactly when the five-field signature holds, and the V5 rewrites are exactly the documented ones. overrideRegisterCountsFromSymbols is proved to depend only on "
+         "this kernel's own .numbered_sgpr/.num_vgpr symbols (max of the rounded values, any symbol order), and findV5KernelDescriptor to return the parsed descriptor at the unique "
+         "<kernel>.kd symbol's section-relative offset for any section address and symbol order. loadKernelCodeObjectFromELF (the debug/elf plumbing) is not yet under contract."),
+   note=(TB + "Assumed (preconditions = well-formed file): section indices valid, a symbol lies inside its section, at most one 64-byte <kernel>.kd symbol, register-count symbols <= 4096; "
+         "strings are uninterpreted with cancellative concatenation; debug/elf itself is outside the verified code."),
+   design="5 (C13)", technique="deductive verification: WP-style VC generation over go/ssa + SMT (byte-layout contracts, loop invariants, intermediate assertion)"),
  "C11": dict(
    text=("memRangeOverlap (the predicate deciding whether a copy must flush dirty buffers) is proved equivalent to interval intersection for all "
          "non-empty ranges over the full uint64 domain. The splitting loops and completion bookkeeping are not yet under contract."),
